@@ -686,9 +686,6 @@ func main() {
 	// while it replays the small cases)
 	scaleCases(c)
 	flushScale(c)
-	if os.Getenv("C05_SCALE_ONLY") != "" { // development aid
-		return
-	}
 	if c.Tier == "quick" {
 		exhaustive(c, 6, 4)
 		exhaustive(c, 4, 5)
